@@ -9,7 +9,9 @@ import configparser
 import io
 import itertools
 import os
+import queue
 import tempfile
+import threading
 
 from core import enc_bool, enc_str, enc_str_list
 
@@ -19,6 +21,7 @@ PROPERTY = "C20"
 # Model/ConfigParser.lean).  F14 and F15 are repaired in /repo (0); CFG_LOWER stays 1: it is the known finding config-name-case.
 CTX_IGNORES_INHERIT = 0  # F14: ThemeContext.__enter__ calls push_theme(self.theme) without inherit=self.inherit (0: repaired, fix 2ea71d3)
 CFG_LOWER = 1  # Theme.from_file uses ConfigParser() with optionxform = str.lower (known finding config-name-case: not repaired, 1 matches /repo)
+STACK_SHARED = 1  # ConsoleThreadLocals(theme_stack=ThemeStack(...)): threading.local re-runs __init__ with the same ThemeStack object in every thread
 CFG_INTERP = 0  # F15: Theme.from_file uses ConfigParser() with BasicInterpolation ('%' is special) (0: repaired, fix 1124f7d)
 
 
@@ -275,6 +278,80 @@ def trees(n, leaves, blocks):
             yield (b[0], b[1], b[2], body)
 
 
+def enc_linked(ids):
+    """ids of the styles that carry a link (the model's `linked` predicate)"""
+    return " ".join(str(i + 1) for i, r in enumerate(ids.reps) if r.link)
+
+
+def _source_object(stack_get, name, default):
+    """the object get_style returns or copies, found the way the property says (bound lookup, then parse, then
+    default), and whether it was passed in as a Style instance (then it is returned as it is)"""
+    from rich import errors
+    from rich.style import Style
+
+    if isinstance(name, Style):
+        return name, True
+    try:
+        st = stack_get(name)
+        return (st if st is not None else Style.parse(name)), False
+    except errors.StyleSyntaxError:
+        if default is not None:
+            return _source_object(stack_get, default, None)
+        return None, False
+    except Exception:
+        return None, False
+
+
+def take_view(console, probes, names, ids, base_dict, side):
+    """In the calling thread: (snapshot string, lookups, invariants ok).  Direct evaluations that need the live
+    objects (lookups read the top entry only; identity / link id of the result) append (site, what) to `side`."""
+    from rich import errors
+    from rich.style import Style
+
+    stack = console._theme_stack
+    lk = []
+    for p in probes:
+        name, default = p[0], (p[1] if len(p) > 1 else None)
+        try:
+            st = console.get_style(name) if len(p) == 1 else console.get_style(name, default=default)
+        except errors.MissingStyle:
+            lk.append(("M",))
+            continue
+        except Exception:
+            lk.append(("X",))
+            continue
+        src, passed_in = _source_object(stack.get, name, default)
+        fresh = st is not src
+        lk.append(("v", st, fresh))
+        if src is not None and isinstance(st, Style):
+            if st != src:
+                side.append(("get_style result identity", f"get_style{p!r} returned {st}, not equal to the stored/parsed style {src}"))
+            elif src.link and not passed_in:
+                again = console.get_style(name) if len(p) == 1 else console.get_style(name, default=default)
+                if not fresh or st.link_id == src.link_id or again.link_id == st.link_id or not st.link_id:
+                    side.append(("get_style result identity", f"get_style{p!r} on a style with a link did not return a copy with a fresh link id"))
+            elif fresh:
+                side.append(("get_style result identity", f"get_style{p!r} returned a different object although the style has no link (or was passed in)"))
+    bound = getattr(stack.get, "__self__", None)
+    if not stack._entries or not isinstance(bound, dict):
+        return "BROKEN", lk, False
+    ok = bound is stack._entries[-1] and stack._entries[0] is base_dict
+    # lookups depend on the top entry only: recompute every probe from `_entries[-1]` alone
+    top = stack._entries[-1]
+    for p, r in zip(probes, lk):
+        src, _ = _source_object(top.get, p[0], p[1] if len(p) > 1 else None)
+        if (src is None) != (r[0] != "v") and r[0] != "X":
+            side.append(("get_style reads the top entry only", f"get_style{p!r} gives {_sh(r)} but the top entry alone gives {src}"))
+        elif src is not None and r[0] == "v" and r[1] != src:
+            side.append(("get_style reads the top entry only", f"get_style{p!r} gives {r[1]} but the top entry alone gives {src}"))
+    snap = (
+        "/".join(enc_dict_out(names, ids, d) for d in stack._entries)
+        + "#" + enc_dict_out(names, ids, bound)
+        + "#" + " ".join((str(ids.sid(r[1])) + ("*" if r[2] else "")) if r[0] == "v" else r[0] for r in lk)
+    )
+    return snap, lk, ok
+
+
 def check_history(ctx, ids, base_theme, ops, probes, tnames, default_console=False, sample=False):
     """one history: run it on a real Console, compare every snapshot with the model and with the spec oracle"""
     from rich.console import Console
@@ -298,37 +375,17 @@ def check_history(ctx, ids, base_theme, ops, probes, tnames, default_console=Fal
             parts.append("s%d" % ids.sid(x) if isinstance(x, Style) else "n%d" % names.add(x))
         probe_enc.append(">".join(parts))
 
-    def lookups():
-        out = []
-        for p in probes:
-            try:
-                st = console.get_style(p[0]) if len(p) == 1 else console.get_style(p[0], default=p[1])
-                out.append(("v", st))
-            except errors.MissingStyle:
-                out.append(("M",))
-            except Exception:
-                out.append(("X",))
-        return out
-
     snaps = []
     real_lookups = []
     wf = [True]
+    side = []
 
     def rec():
-        lk = lookups()
+        snap, lk, ok = take_view(console, probes, names, ids, base_dict, side)
         real_lookups.append(lk)
-        bound = getattr(stack.get, "__self__", None)
-        if not stack._entries or not isinstance(bound, dict):
+        snaps.append(snap)
+        if not ok:
             wf[0] = False
-            snaps.append("BROKEN")
-            return
-        if bound is not stack._entries[-1] or stack._entries[0] is not base_dict:
-            wf[0] = False
-        snaps.append(
-            "/".join(enc_dict_out(names, ids, d) for d in stack._entries)
-            + "#" + enc_dict_out(names, ids, bound)
-            + "#" + " ".join(str(ids.sid(r[1])) if r[0] == "v" else r[0] for r in lk)
-        )
 
     rec()
     try:
@@ -347,7 +404,7 @@ def check_history(ctx, ids, base_theme, ops, probes, tnames, default_console=Fal
         shown = "history on %s: %s" % ("Console()" if default_console else "Console(theme=BASE)", show_ops(ops, tnames))
     ctx.case(
         "theme_hist",
-        [CTX_IGNORES_INHERIT, names.enc(), enc_ptable(names, ids), base_enc, ops_enc, ",".join(probe_enc)],
+        [CTX_IGNORES_INHERIT, names.enc(), enc_ptable(names, ids), enc_linked(ids), base_enc, ops_enc, ",".join(probe_enc)],
         outcome + ";" + "|".join(snaps),
         shape="%s,steps%d" % (outcome, min(len(snaps), 12) // 3 * 3),
         sample=shown,
@@ -401,6 +458,11 @@ def check_history(ctx, ids, base_theme, ops, probes, tnames, default_console=Fal
         ):
             finding = "use-theme-ignores-inherit"
     ctx.check(ok, "Console.get_style after history", desc, what, finding=finding)
+    for site, what in side[:3]:
+        ctx.check(False, site, desc, what)
+    if not side:
+        ctx.check(True, "get_style reads the top entry only", desc, "")
+        ctx.check(True, "get_style result identity", desc, "")
     ctx.check(wf[0], "ThemeStack invariants", desc, "ThemeStack.get is not bound to _entries[-1], or _entries[0] is no longer the base theme's dict")
     bal = is_balanced(ops)
     if bal is not None:
@@ -418,10 +480,312 @@ def _sh(r):
     return "Style(%s)" % r[1] if r[0] == "v" else {"M": "MissingStyle", "X": "another exception", "S": "StyleSyntaxError"}[r[0]]
 
 
+# ------------------------------------------------------------------ threads and outside mutation
+STACK_SHARED_SLUG = "theme-stack-shared-across-threads"
+
+
+class _Worker(threading.Thread):
+    """a real thread that executes the callables it is handed, one at a time (Event/Queue handshake)"""
+
+    def __init__(self):
+        super().__init__(daemon=True)
+        self.q = queue.Queue()
+        self.r = queue.Queue()
+
+    def run(self):
+        while True:
+            fn = self.q.get()
+            if fn is None:
+                return
+            try:
+                self.r.put(("ok", fn()))
+            except BaseException as e:  # noqa: B036  reported to the orchestrator
+                self.r.put(("exc", e))
+
+    def call(self, fn):
+        self.q.put(fn)
+        kind, val = self.r.get(timeout=60)
+        if kind == "exc":
+            raise val
+        return val
+
+
+class _Direct:
+    def call(self, fn):
+        return fn()
+
+
+class MTSpec:
+    """The statement for threads and aliasing, executable: every thread has its own list of pushed entries (each a
+    snapshot taken at push time) over one live base dict; `shared=True` gives all threads one list."""
+
+    def __init__(self, base_live, nthreads, shared, frozen):
+        self.frozen = frozen
+        self.base = base_live
+        self.shared = shared
+        self.frames = [[] for _ in range(nthreads)]
+
+    def fr(self, tid):
+        return self.frames[0 if self.shared else tid]
+
+    def top(self, tid):
+        f = self.fr(tid)
+        return f[-1] if f else self.base
+
+    def step(self, tid, st):
+        kind = st[0]
+        if kind in ("push", "enter"):
+            styles = self.frozen[id(st[1])]
+            self.fr(tid).append({**self.top(tid), **styles} if st[2] else dict(styles))
+            return "ok"
+        if kind in ("pop", "exit"):
+            if not self.fr(tid):
+                return "ThemeStackError"
+            self.fr(tid).pop()
+            return "ok"
+        return "ok"  # setbase is applied to the live dict by the caller; setpushed touches no entry
+
+    def lookups(self, tid, probes):
+        top = self.top(tid)
+        out = []
+        for p in probes:
+            src, _ = _source_object(top.get, p[0], p[1] if len(p) > 1 else None)
+            out.append(("M",) if src is None else ("v", src))
+        return out
+
+
+def enc_sched(names, ids, sched):
+    out = []
+    for tid, st in sched:
+        k = st[0]
+        if k == "push":
+            out.append("%dP%d:%s" % (tid, st[2], enc_dict_in(names, ids, st[1].styles)))
+        elif k == "enter":
+            out.append("%dN%d:%s" % (tid, st[2], enc_dict_in(names, ids, st[1].styles)))
+        elif k == "pop":
+            out.append("%dO" % tid)
+        elif k == "exit":
+            out.append("%dX" % tid)
+        elif k == "setbase":
+            out.append("%dB%d=%d" % (tid, names.add(st[1]), ids.sid(st[2])))
+        else:
+            out.append("%dM" % tid)
+    return out
+
+
+def show_sched(sched):
+    def one(tid, st):
+        k = st[0]
+        if k in ("push", "enter"):
+            return "t%d:%s(%s,inherit=%s)" % (tid, "push_theme" if k == "push" else "use_theme.__enter__", {n: str(v) for n, v in st[1].styles.items()}, st[2])
+        if k == "setbase":
+            return "t%d:base.styles[%r]=%s" % (tid, st[1], st[2])
+        if k == "setpushed":
+            return "t%d:pushed.styles[%r]=%s" % (tid, st[2], st[3])
+        return "t%d:%s" % (tid, {"pop": "pop_theme", "exit": "__exit__"}[k])
+
+    return "; ".join(one(t, s) for t, s in sched)
+
+
+def check_mt(ctx, ids, base_styles, nthreads, sched, probes, sample=False):
+    """one schedule of atomic steps by up to 3 real threads on one Console (thread 0 = the constructing thread)"""
+    from rich.console import Console
+    from rich.style import Style
+    from rich.theme import Theme, ThemeStackError
+
+    base_theme = Theme(dict(base_styles), inherit=False)
+    console = Console(file=io.StringIO(), theme=base_theme)
+    base_dict = base_theme.styles
+    workers = [_Direct()] + [_Worker() for _ in range(nthreads - 1)]
+    for w in workers[1:]:
+        w.start()
+    names = Names()
+    base_enc = enc_dict_in(names, ids, base_dict)
+    sched_enc = ";".join(enc_sched(names, ids, sched))
+    probe_enc = []
+    for p in probes:
+        probe_enc.append(">".join("s%d" % ids.sid(x) if isinstance(x, Style) else "n%d" % names.add(x) for x in p))
+    side = []
+    cms = [[] for _ in range(nthreads)]
+    aliased_base = [True]
+    # what each theme held when the schedule was written (a later `setpushed` step mutates the object)
+    frozen = {id(st[1]): dict(st[1].styles) for _t, st in sched if st[0] in ("push", "enter")}
+    desc0 = show_sched(sched)
+
+    def views():
+        res = []
+        for t in range(nthreads):
+            def view():
+                if console._theme_stack._entries and console._theme_stack._entries[0] is not base_dict:
+                    aliased_base[0] = False
+                return take_view(console, probes, names, ids, console._theme_stack._entries[0] if console._theme_stack._entries else None, side)
+            res.append(workers[t].call(view))
+        return res
+
+    def do(tid, st):
+        k = st[0]
+
+        def act():
+            if k == "push":
+                console.push_theme(st[1], inherit=st[2])
+            elif k == "pop":
+                console.pop_theme()
+            elif k == "enter":
+                cm = console.use_theme(st[1], inherit=st[2])
+                cm.__enter__()
+                cms[tid].append(cm)
+            elif k == "exit":
+                cm = cms[tid].pop() if cms[tid] else console.use_theme(base_theme)
+                cm.__exit__(None, None, None)
+            elif k == "setbase":
+                base_theme.styles[st[1]] = st[2]
+            else:
+                st[1].styles[st[2]] = st[3]
+
+        try:
+            workers[tid].call(act)
+            return "ok"
+        except ThemeStackError:
+            return "ThemeStackError"
+        except IndexError:
+            return "IndexError"
+        except Exception as e:
+            return "Other:" + type(e).__name__
+
+    try:
+        v0 = views()
+        real = [("ok", v0)]
+        for tid, st in sched:
+            r = do(tid, st)
+            real.append((r, views()))
+    finally:
+        for w in workers[1:]:
+            w.q.put(None)
+    ans = "|".join(r + ";" + "~".join(v[0] for v in vs) for r, vs in real)
+    ctx.case(
+        "theme_mt",
+        [STACK_SHARED, CTX_IGNORES_INHERIT, names.enc(), enc_ptable(names, ids), enc_linked(ids), base_enc, nthreads, sched_enc, ",".join(probe_enc)],
+        ans,
+        shape="threads%d,steps%d" % (nthreads, min(len(sched), 9) // 3 * 3),
+        sample=("schedule: " + desc0) if sample else None,
+    )
+    # ---- direct evaluation: one stack per thread over the live base; pushed entries are snapshots
+    desc = "%d thread(s) on Console(theme=Theme(%s)): %s" % (nthreads, {n: str(v) for n, v in base_styles.items()}, desc0)
+
+    def replay_spec(shared):
+        live = dict(base_styles)
+        sp = MTSpec(live, nthreads, shared, frozen)
+        out = [("ok", [sp.lookups(t, probes) for t in range(nthreads)])]
+        for tid, st in sched:
+            if st[0] == "setbase":
+                live[st[1]] = st[2]
+            out.append((sp.step(tid, st), [sp.lookups(t, probes) for t in range(nthreads)]))
+        return out
+
+    def agrees(spec_run):
+        for k, ((r, vs), (sr, svs)) in enumerate(zip(real, spec_run)):
+            if r != sr:
+                return k, f"step {k} ended {r}, expected {sr}"
+            for t in range(nthreads):
+                for p, x, y in zip(probes, vs[t][1], svs[t]):
+                    if x[0] != y[0] or (x[0] == "v" and x[1] != y[1]):
+                        return k, f"after step {k} thread {t}: get_style{p!r} gives {_sh(x)}, expected {_sh(y)}"
+        return None
+
+    bad = agrees(replay_spec(False))
+    finding = None
+    if bad is not None and nthreads > 1 and agrees(replay_spec(True)) is None:
+        finding = STACK_SHARED_SLUG  # exactly the behaviour of one stack shared by every thread
+    ctx.check(bad is None, "theme stack per thread / base aliasing", desc, "" if bad is None else bad[1], finding=finding)
+    ctx.check(aliased_base[0], "ThemeStack base entry", desc, "_entries[0] is not the base theme's own styles dict in some thread")
+    for site, what in side[:3]:
+        ctx.check(False, site, desc, what)
+    inv_ok = all(v[2] for _r, vs in real for v in vs)
+    ctx.check(inv_ok, "ThemeStack invariants", desc, "ThemeStack.get is not bound to _entries[-1] in some thread")
+
+
+def run_mt_cases(ctx, ids, S):
+    from rich.theme import Theme
+
+    rng = ctx.rng
+    base = {"a": S[0], "b": S[1]}
+    probes = [("a",), ("b",), ("c",), ("x",), ("zzz", "x"), ("zzz", "a")]
+
+    def TA():
+        return Theme({"a": S[3], "c": S[4]}, inherit=False)
+
+    def TB():
+        return Theme({"b": S[5], "c": S[6]}, inherit=False)
+
+    # (i) one thread, every word over {push A inherit, push B no-inherit, enter B inherit, pop, base[a]=…, base[x]=…, pushed[a]=…}
+    maxlen = 3 if ctx.quick else 4
+    n = 0
+    for ln in range(1, maxlen + 1):
+        for word in itertools.product("PQEOabm", repeat=ln):
+            if "a" not in word and "b" not in word and "m" not in word:
+                continue  # mutation-free words are the business of check_history
+            sched, pushed = [], []
+            for w in word:
+                if w in "PQE":
+                    t = TA() if w == "P" else TB()
+                    pushed.append(t)
+                    sched.append((0, ("push", t, True) if w == "P" else ("push", t, False) if w == "Q" else ("enter", t, True)))
+                elif w == "O":
+                    sched.append((0, ("pop",)))
+                elif w == "a":
+                    sched.append((0, ("setbase", "a", S[7])))
+                elif w == "b":
+                    sched.append((0, ("setbase", "x", S[2])))
+                elif pushed:
+                    sched.append((0, ("setpushed", pushed[-1], "a", S[8])))
+            check_mt(ctx, ids, base, 1, sched, probes, sample=(n == 50))
+            n += 1
+    ctx.note("mt_alias_exhaustive", n)
+    # (ii) two threads, every schedule of up to 3 (4) steps over {push A inherit, push B no-inherit, pop} x {t0, t1}
+    n = 0
+    for ln in range(1, (3 if ctx.quick else 4) + 1):
+        for word in itertools.product([(t, k) for t in (0, 1) for k in "PQO"], repeat=ln):
+            if len({t for t, _ in word}) < 2:
+                continue
+            sched = [(t, ("push", TA(), True) if k == "P" else ("push", TB(), False) if k == "Q" else ("pop",)) for t, k in word]
+            check_mt(ctx, ids, base, 2, sched, probes, sample=(n == 30))
+            n += 1
+    ctx.note("mt_threads_exhaustive", n)
+    # (iii) random schedules, up to 3 threads, use_theme enter/exit, mutations
+    pool = ["a", "b", "c", "x"]
+    for i in range(150 if ctx.quick else 4000):
+        nt = rng.choice([1, 2, 2, 3])
+        open_cm = [0] * nt
+        pushed = []
+        sched = []
+        for _ in range(rng.randint(1, 10)):
+            tid = rng.randrange(nt)
+            r = rng.random()
+            if r < 0.3:
+                t = Theme({rng.choice(pool): rng.choice(S) for _ in range(rng.randint(0, 3))}, inherit=False)
+                pushed.append(t)
+                sched.append((tid, ("push", t, rng.random() < 0.6)))
+            elif r < 0.45:
+                t = Theme({rng.choice(pool): rng.choice(S) for _ in range(rng.randint(0, 3))}, inherit=False)
+                pushed.append(t)
+                sched.append((tid, ("enter", t, rng.random() < 0.5)))
+                open_cm[tid] += 1
+            elif r < 0.6 and open_cm[tid]:
+                sched.append((tid, ("exit",)))
+                open_cm[tid] -= 1
+            elif r < 0.78:
+                sched.append((tid, ("pop",)))
+            elif r < 0.9:
+                sched.append((tid, ("setbase", rng.choice(pool), rng.choice(S))))
+            elif pushed:
+                sched.append((tid, ("setpushed", rng.choice(pushed), rng.choice(pool), rng.choice(S))))
+        check_mt(ctx, ids, {rng.choice(pool): rng.choice(S) for _ in range(rng.randint(0, 3))}, nt, sched, probes + [(rng.choice(S),)], sample=(i == 7))
+
+
 # ------------------------------------------------------------------ config round trip
 SAFE_NAMES = ["a", "warning", "repr.str", "a b", "x-y_z", "b", "rem x", "bar.back", "a.b.c", "0", "on", "none"]
-NONASCII_SAFE = ["é", "ß", "名前", "a\x0cb"]
-UPPER_NAMES = ["A", "Foo", "REM", "aB", "É"]
+NONASCII_SAFE = ["é", "ß", "名前", "a\x0cb", "ς", "i̇"]
+UPPER_NAMES = ["A", "Foo", "REM", "aB", "É", "İ", "ẞ"]
 HOSTILE_NAMES = [" a", "a ", "a:b", "a=b", "#a", ";a", "[a]", "", "a\nb", "a\t", "[x", "a\x1f"]
 
 
@@ -491,20 +855,23 @@ def check_from_file(ctx, ids, text, inherit, defaults_enc, defaults_names, reada
     from rich.theme import Theme
 
     names = Names(defaults_names)
+    # text mode of Theme.read: universal newlines (independent of the model's scanner)
+    seen = text.replace("\r\n", "\n").replace("\r", "\n") if via_path else text
     # every value the real parser hands to Style.parse must be in the parse table
-    items = real_cfg_items(text)
+    items = real_cfg_items(seen)
     if items.startswith("ok:"):
         cp = configparser.ConfigParser() if CFG_INTERP else configparser.ConfigParser(interpolation=None)
         if not CFG_LOWER:
             cp.optionxform = str
-        cp.read_file(io.StringIO(text))
+        cp.read_file(io.StringIO(seen))
         for _k, v in cp.items("styles"):
             names.add(v)
+    other = None
     try:
         if via_path:
             with tempfile.TemporaryDirectory() as d:
                 p = os.path.join(d, "t.cfg")
-                with open(p, "wt", newline="\n") as f:
+                with open(p, "w", newline="", encoding="utf-8") as f:  # the characters exactly as given
                     f.write(text)
                 t = Theme.read(p) if (inherit and _omit_default()) else Theme.read(p, inherit=inherit)
         else:
@@ -516,11 +883,23 @@ def check_from_file(ctx, ids, text, inherit, defaults_enc, defaults_names, reada
         t, ans = None, "err:StyleSyntaxError"
     except Exception as e:
         t, ans = None, "err:Other"
-        ctx.note("from_file_other_exception:" + type(e).__name__)
+        other = type(e).__name__
+        ctx.note("from_file_other_exception:" + other)
     if t is not None:
         ans = "ok:" + enc_dict_out(names, ids, t.styles)
+    # totality: a Theme, a configparser exception or StyleSyntaxError - unless Style.parse itself raises something else
+    leaked = other is not None and not any(parse_outcome(ids, v)[0] == "X" for v in names.l)
+    ctx.check(not leaked, "Theme.from_file totality", text, f"raised {other}, which is neither a configparser error nor StyleSyntaxError")
+    if via_path:
+        # Theme.read == Theme.from_file on the newline-translated text
+        try:
+            t3 = Theme.from_file(io.StringIO(seen), inherit=inherit)
+            same = t is not None and t3.styles == t.styles
+        except Exception as e:
+            same = t is None and ("err:" + type(e).__name__ == ans or ans == "err:Other")
+        ctx.check(same, "Theme.read", (text, inherit), "Theme.read(path) differs from Theme.from_file on the file's text with newlines translated")
     ctx.case(
-        "theme_from_file",
+        "theme_read" if via_path else "theme_from_file",
         [CFG_LOWER, CFG_INTERP, names.enc(), enc_ptable(names, ids), defaults_enc, enc_str(text), enc_bool(inherit)],
         ans,
         shape=ans.split(":")[0] + (":" + ans.split(":")[1] if ans.startswith("err") else ""),
@@ -541,9 +920,14 @@ def run(ctx):
     ctx.assumptions += [
         "styles are opaque to the theme model: compared by Style.__eq__ (link ids excluded) and represented by ids",
         "Style.parse is a parameter of the model (a table computed by the real Style.parse for every string a request mentions)",
-        "configparser (stdlib) is modelled for the default-argument parser on single-section, non-indented texts; the model is "
-        "compared with the real parser on every generated text (contract check), other inputs answer `unmodelled`",
-        "one thread: the theme stack is thread-local; dicts held by the stack are not mutated from outside",
+        "configparser (stdlib) is modelled for the parser Theme.from_file builds: comments, empty lines in values, continuation "
+        "lines, any sections, [DEFAULT] inheritance, duplicate sections/options, delimiter-less lines, empty names, "
+        "optionxform=str.lower through a table translated from the running Python (U+03A3 excluded: `unmodelled`); the model is "
+        "compared with the real parser on every generated text (contract check)",
+        "threads: each thread's steps are atomic and run in schedule order (Queue handshakes); no preemption inside push/pop",
+        "outside mutation: only item assignment on a theme's styles dict is modelled; the base entry aliases the base theme's dict "
+        "(as the code has it), pushed entries are snapshots",
+        "Theme.read: the file decodes (utf-8 locale) to the given characters; text mode translates \\r\\n and \\r to \\n",
         "config round trip domain: names non-empty, without '=' ':' newline, strip()-stable, not starting with '#' ';' '['",
     ]
 
@@ -704,6 +1088,34 @@ def run(ctx):
             ok = False
         ctx.check(ok and len(st._entries) == 1 and st.get("a") == S[0], "ThemeStack.pop_theme on base", "ThemeStack(BASE).pop_theme()", "base popped")
 
+    # ---- 2b. every stack of up to 3 (4) pushes over four themes x inherit, looked up at every level, then popped.
+    # Names: `only<k>` is defined only by theme k; `all` by all; `base`/`all` by the base; `odd` by T1 and T3; `t12` by T1,T2.
+    PB = Theme({"base": S[0], "all": S[1], "shadow": S[2]}, inherit=False)
+    PT = [
+        Theme({"only0": S[3], "all": S[4], "shadow": S[5]}, inherit=False),
+        Theme({"only1": S[6], "all": S[7], "odd": S[0], "t12": S[1]}, inherit=False),
+        Theme({"only2": S[2], "all": S[3], "t12": S[4]}, inherit=False),
+        Theme({"only3": S[5], "all": S[6], "odd": S[7], "base": S[8]}, inherit=False),
+    ]
+    for k_, t_ in enumerate(PT):
+        tnames[id(t_)] = "T%d" % k_
+    tnames[id(PB)] = "PB"
+    pprobes = [(n_,) for n_ in ["base", "all", "shadow", "only0", "only1", "only2", "only3", "odd", "t12", "zzz", "bold"]] + [("zzz", "only1"), ("only2", "base")]
+    depth = 3 if ctx.quick else 4
+    pushes = [("push", t_, i_) for t_ in PT for i_ in (True, False)]
+    nstack = 0
+    for n in range(1, depth + 1):
+        for combo in itertools.product(pushes, repeat=n):
+            ops = list(combo) + [("pop",)] * n
+            check_history(ctx, ids, PB, ops, pprobes, tnames)
+            nstack += 1
+    ctx.note("hist_push_stacks", nstack)
+    ctx.flush()
+
+    # ---- 2c. outside mutation of theme dicts, and threads
+    run_mt_cases(ctx, ids, S)
+    ctx.flush()
+
     # ThemeStack used directly (its own default for `inherit`), every push/pop word up to length 5
     for n in range(0, 6 if ctx.quick else 8):
         for word in itertools.product("PNO", repeat=n):  # P = push_theme(t) (default inherit), N = push_theme(t, inherit=False), O = pop
@@ -747,17 +1159,20 @@ def run(ctx):
         if 0xD800 <= cp <= 0xDFFF:
             continue
         ctx.case("cfg_isspace", [cp], enc_bool(chr(cp).isspace()))
+        if cp < 0x20000 or not ctx.quick:  # every character str.lower changes lies below U+1E944
+            ctx.case("cfg_lower", [cp], enc_str(chr(cp).lower()))
     ctx.flush()
 
     # the round trip's domain: the harness predicate is the Lean predicate (safeName / safeValue of Model/ConfigParser.lean)
-    dom_names = SAFE_NAMES + NONASCII_SAFE + UPPER_NAMES + HOSTILE_NAMES + ["a\u00a0", "\u2003a", "a\x85", "x]", "a%b", "a#b", "]", "a;b", "A.b", "z" * 40]
+    dom_names = SAFE_NAMES + NONASCII_SAFE + UPPER_NAMES + HOSTILE_NAMES + ["Σ", "aΣb", "İ", "ǅx", "ẞ", "ﬁ", "a\u00a0", "\u2003a", "a\x85", "x]", "a%b", "a#b", "]", "a;b", "A.b", "z" * 40]
     chars = ["a", "Z", " ", "=", ":", "#", ";", "[", "]", "\n", "\t", "%", "é", ".", "\x1f", "\u3000"]
     for _ in range(300 if ctx.quick else 5000):
         dom_names.append("".join(rng.choice(chars) for _ in range(rng.randint(0, 4))))
     for n in dom_names:
         base_ok = name_in_domain(n)
         ctx.case("cfg_safe_name", [0, enc_str(n)], enc_bool(base_ok), shape=str(base_ok))
-        ctx.case("cfg_safe_name", [1, enc_str(n)], enc_bool(base_ok and n.isascii() and not any("A" <= c <= "Z" for c in n)))
+        ctx.case("cfg_safe_name", [1, enc_str(n)], enc_bool(base_ok and n == n.lower() and "\u03a3" not in n))
+        ctx.case("cfg_lower", [enc_str(n)], enc_str(n.lower()))
         v_ok = bool(n) and n == n.strip() and "\n" not in n
         ctx.case("cfg_safe_value", [0, enc_str(n)], enc_bool(v_ok))
         ctx.case("cfg_safe_value", [1, enc_str(n)], enc_bool(v_ok and "%" not in n))
@@ -806,7 +1221,7 @@ def run(ctx):
         for inherit in (False, True):
             t2, ans = check_from_file(ctx, ids, text, inherit, defaults_enc, defaults_names,
                                       readable=f"Theme.from_file(StringIO({text!r}), inherit={inherit})" if i % 40 == 3 else None,
-                                      via_path=(i % 25 == 5 and "\r" not in text))
+                                      via_path=(i % 25 == 5))
             if not in_domain:
                 continue
             # the property: the config text reads back as a theme with equal styles
@@ -825,8 +1240,10 @@ def run(ctx):
     pieces = ["[styles]", "a = red", "A=bold", "x : dim", "# c", "; c", "", "  ", " b = red", "\tc = red", "[other]", "k = link 100%",
               "k = link %%", "k = link %(a)s", "novalue", "= red", "[]", "[styles]]", "a = b = c", "a : on = c", "a = red  ", "a\t=\tred",
               "q\x1f= red", "[styles] ", " [styles]", "B = zzz", "é = red", "É = red", "[styles", "b=not", "a =", "c = none", "[ styles ]", "#[styles]", "a = red # no"]
-    outside = {" b = red", "\tc = red", "[other]", "k = link %(a)s", " [styles]", "[ styles ]", "é = red", "É = red"}
-    modelled_pieces = [p_ for p_ in pieces if p_ not in outside]
+    pieces += ["[DEFAULT]", "  bold", "\tunderline  ", "  [x]", " ; c", "  # c", "k = link %(a)s x", "[DEFAULT]", "   on blue", "D = dim", "[a]b]", "x = ", " y = red"]
+    pieces += ["İx = red", "ǅ = dim", "Σ = red", "aΣ = red"]
+    outside = {"Σ = red", "aΣ = red"}  # capital sigma: outside the model while names are lower-cased
+    modelled_pieces = [p_ for p_ in pieces if p_ not in outside] if CFG_LOWER else pieces
     n_txt = 1500 if ctx.quick else 40000
     for i in range(n_txt):
         k = rng.randint(0, 5)
@@ -835,19 +1252,25 @@ def run(ctx):
         lines = [rng.choice(pieces if rng.random() < 0.04 else modelled_pieces) for _ in range(k)]
         if rng.random() < 0.7:
             lines.insert(0, "[styles]")
-        text = "\n".join(lines) + ("\n" if rng.random() < 0.5 else "")
+        eol = "\n" if rng.random() < 0.8 else rng.choice(["\r\n", "\r"])
+        text = eol.join(lines) + (eol if rng.random() < 0.5 else "")
+        if rng.random() < 0.03:
+            text = "\ufeff" + text
         ans = real_cfg_items(text)
         ctx.case("cfg_items", [CFG_LOWER, CFG_INTERP, enc_str(text)], ans, shape=ans.split(":")[0] + (":" + ans.split(":")[1] if ans.startswith("err") else ""),
                  sample=f"configparser on {text!r}" if i % 300 == 1 else None)
-        check_from_file(ctx, ids, text, rng.random() < 0.5, defaults_enc, defaults_names)
+        check_from_file(ctx, ids, text, rng.random() < 0.5, defaults_enc, defaults_names, via_path=(eol != "\n" or i % 6 == 0))
     ctx.flush()
     ctx.rule = (
         "every history forest with <= %d statements over {push(A,inherit), push(B,no-inherit), pop, raise, use(A,no-inherit)[..], "
         "use(B,inherit)[..]} on a 3-name base, each with %d lookups after every statement (bounded-exhaustive), + seeded random "
         "histories to depth 4 / 12 statements over random themes (1 in 8 on the default console); Theme() over 9 names x 22 definitions; "
         "config round trip over random themes (names: safe/non-ASCII/upper-case/hostile; styles: 13 attributes x 9 colours x 11 links) "
-        "and random config texts over %d line shapes; str.isspace on all code points; distinct = distinct canonical requests"
-        % (nmax, len(probes), len(pieces))
+        "and random config texts over %d line shapes (\\n / \\r\\n / \\r endings, BOM, 1 in 6 through Theme.read on a real file); "
+        "every stack of <= %d pushes over 4 themes x inherit looked up at each level and popped; every 1-thread word <= %d over "
+        "{push, enter, pop, base[k]=v, pushed[k]=v} and every 2-thread schedule <= %d over {push, pop} on real threads, + random "
+        "3-thread schedules; str.isspace / str.lower on all code points; distinct = distinct canonical requests"
+        % (nmax, len(probes), len(pieces), 3 if ctx.quick else 4, 3 if ctx.quick else 4, 3 if ctx.quick else 4)
     )
 
 
@@ -860,36 +1283,43 @@ def replay(ctx, case):
 
 
 MANIFEST = {
-    "text": "Lean 4 theorems (Props/C20.lean; no bound on the number of themes, names, nesting depth or history length). "
+    "text": "Lean 4 theorems (Props/C20.lean, 34; no bound on the number of themes, names, nesting depth, history or schedule length). "
     "Stack: `resolve_spec`/`get_style_spec` - on the ThemeStack representing any list of (theme, inherit) frames over a base, "
     "Console.get_style(name, default) is: newest frame defining the name, falling through inheriting frames only, else Style.parse "
-    "(StyleSyntaxError -> default / MissingStyle, other errors propagate); `history_refines`/`lookup_after_history` - every history of "
-    "push_theme/pop_theme/raise/`with use_theme(..)` (any nesting, unbalanced pops, exceptions, exceptions out of __exit__) run by the "
-    "repaired code ends on the stack the frame specification computes, with the same outcome; `pop_push_id`; `balanced_restores` "
-    "(+ `_lookups`, `use_theme_restores_on_exception`) - every balanced history, including use_theme bodies aborted by an exception at "
-    "any point, restores entries and the bound `get` exactly, for both variants of ThemeContext.__enter__; `base_not_poppable`, "
-    "`base_survives` - no history removes the base or unbinds `get` from the top; `theme_new_lookup`/`theme_new_error` for Theme(). "
-    "Config: `configparser_contract` - an executable model of configparser (read_file + items('styles'), default parser, both "
-    "variants of optionxform/interpolation) returns exactly the entries Theme.config wrote, for all entry lists with safe names/values; "
-    "`config_roundtrip` over the abstract contract, `config_roundtrip_model`/`_inherit` for the modelled parser; `default_names_safe` "
-    "re-proved by `decide +kernel` on the DEFAULT_STYLES keys translated from /repo on every run. Witnesses by `decide`: "
-    "`old_use_theme_ignores_inherit` (F14, repaired by fix 2ea71d3), `old_config_percent_breaks`/`_changes_value` (F15, repaired by fix 1124f7d), "
-    "`old_config_lowercases_names` (the known finding config-name-case, not repaired). "
-    "Tie: every history forest with <=3 (quick) / <=4 (thorough) statements over 6 statement kinds with 27 lookups after each statement, "
-    "seeded random histories to depth 4 (1 in 8 on the default console), all push/pop words <=5 (7) directly on ThemeStack, Theme() over "
-    "random dicts drawn from a pool of 12 names x (9 Style objects + 24 definitions: 14 that parse, 10 that do not), config round trip over single-entry themes (all name classes x links) and random themes, random config "
-    "texts over 35 line shapes, str.isspace on all code points - each compared model-vs-rich and evaluated against a frame-list oracle "
-    "written from the property statement.",
-    "note": "Trusted: Lean kernel; axioms propext/Classical.choice/Quot.sound; translator plug-in harness/gen/default_style_names.py; "
-    "the correspondence harness. Parameters (assumed, exercised per case): styles are opaque ids compared by Style.__eq__ (link ids "
-    "excluded, so `style.copy() if style.link` is the identity); Style.parse and Style.__str__ are tables computed by the real code, "
-    "and the round trip assumes parse(str(s)) == s (C06; styles failing it are filtered and counted); configparser is stdlib - "
-    "its model covers non-indented single-section texts, ASCII names when lower-casing, no %(name)s references (others answer "
-    "`unmodelled`, counted) and is checked against the real parser on every generated text. Round-trip domain (stated, not a "
-    "finding): names non-empty, without '=' ':' newline, strip()-stable, not starting with '#' ';' '[' - other names cannot be "
-    "written in configparser syntax at all. One thread only (the stack is thread-local); dicts held by the stack are assumed not "
-    "to be mutated from outside (ThemeStack aliases theme.styles for the base). Code-variant flags at the top of this file match /repo as it is "
-    "now: F14 and F15 are repaired there (fixes 2ea71d3, 1124f7d; flags 0); lower-cased names are the known finding config-name-case "
-    "(CFG_LOWER = 1, KNOWN-FINDING on every run).",
+    "(StyleSyntaxError -> default / MissingStyle, other errors propagate); `lookup_reads_top_entry_only`; `get_style_object_spec` (a "
+    "looked-up/parsed style with a link is returned as a fresh copy, anything else as the object itself); `history_refines`/"
+    "`lookup_after_history` - every history of push_theme/pop_theme/raise/`with use_theme(..)` (any nesting, unbalanced pops, "
+    "exceptions, exceptions out of __exit__) ends on the stack the frame specification computes, with the same outcome; `pop_push_id`; "
+    "`balanced_restores` (+ `_lookups`, `use_theme_restores_on_exception`) - every balanced history, including use_theme bodies "
+    "aborted by an exception at any point, restores entries and the bound `get` exactly; `base_not_poppable`, `base_survives`; "
+    "`restore_after_base_mutation` (pushes, an outside assignment to the base theme's dict, as many pops = the original stack with that "
+    "assignment) with `inherit_snapshot_is_stale` documenting what is not promised; `thread_isolation` (one stack per thread: for every "
+    "interleaving a thread's stack is the run of its own steps) and the witness `old_theme_stack_shared_across_threads` for the code as "
+    "found; `theme_new_lookup`/`theme_new_error`. Config: `configparser_contract` - an executable model of configparser "
+    "(comments, continuation lines, sections, [DEFAULT], duplicates, str.lower from a generated table) returns exactly the entries "
+    "Theme.config wrote, for all entry lists with safe names/values; `config_roundtrip` over the abstract contract, "
+    "`config_roundtrip_model`/`_inherit`; `from_file_total` (a Theme, a configparser exception or Style.parse's exception, for every "
+    "text); `read_is_from_file` (+ CR/BOM witnesses); `default_names_safe` by `decide +kernel` on the DEFAULT_STYLES keys translated "
+    "on every run. Witnesses by `decide` for the repaired/known defects: `old_use_theme_ignores_inherit`, `old_history_is_forced_inherit`, "
+    "`old_config_percent_breaks`/`_changes_value`, `old_config_lowercases_names`. "
+    "Tie: every history forest with <=3 (quick) / <=4 (thorough) statements over 6 statement kinds with 27 lookups after each statement; "
+    "every stack of <=3 (4) pushes over 4 themes x inherit; seeded random histories to depth 4; all push/pop words <=5 (7) directly on "
+    "ThemeStack; every 1-thread word <=3 (4) with outside dict mutations and every 2-thread schedule <=3 (4) on real threads, random "
+    "3-thread schedules; Theme() over 12 names x 24 definitions; config round trip over single-entry themes and random themes; random "
+    "config texts over ~50 line shapes with LF/CRLF/CR endings and BOM, part through Theme.read on real files; str.isspace and "
+    "str.lower on all code points - each compared model-vs-rich and evaluated against oracles written from the property statement.",
+    "note": "Trusted: Lean kernel; axioms propext/Classical.choice/Quot.sound; translator plug-ins harness/gen/default_style_names.py and "
+    "harness/gen/py_lower.py (str.lower of the running Python, re-checked on all code points each run); the correspondence harness. "
+    "Parameters (assumed, exercised per case): styles are opaque ids compared by Style.__eq__; Style.parse and Style.__str__ are tables "
+    "computed by the real code, and the round trip assumes parse(str(s)) == s (C06; styles failing it are filtered and counted); "
+    "configparser is stdlib - its model answers `unmodelled` (counted) only for option names containing U+03A3 while lower-casing and "
+    "for %(name)s references while interpolation is on, and is checked against the real parser on every generated text. Round-trip "
+    "domain (stated, not a finding): names non-empty, without '=' ':' newline, strip()-stable, not starting with '#' ';' '[' (and "
+    "without CR for Theme.read). Threads: steps are atomic and follow the schedule (no preemption inside push_theme/pop_theme is "
+    "exhibited). Outside mutation: only item assignment on styles dicts; the base entry aliases the base theme's dict as the code has "
+    "it, and a mutation is invisible under an open inheriting push until it is popped (documented non-finding). `Console(theme=t)` "
+    "testing `not theme` instead of `is None` is equivalent (Theme has no __bool__/__len__). Code-variant flags at the top of this file: "
+    "STACK_SHARED=1 matches today's ConsoleThreadLocals (finding theme-stack-shared-across-threads, fix in pending_fixes/), "
+    "CFG_LOWER=1 the known finding config-name-case.",
     "design_ref": "DESIGN.md section 7, C20",
 }
